@@ -27,8 +27,9 @@ Seqify(f) == SubSeq(f, 1, Len(f))
 InSeq(s, v) == \E j \in DOMAIN s : s[j] = v
 FirstIdx(s, v) == CHOOSE j \in DOMAIN s : s[j] = v /\ \A m \in 1..(j-1) : s[m] # v
 RemoveAt(s, j) == SubSeq(s, 1, j-1) \o SubSeq(s, j+1, Len(s))
-\* Python list.remove: first occurrence (callers test InSeq first)
-RemoveFirst(s, v) == RemoveAt(s, FirstIdx(s, v))
+\* Python list.remove: first occurrence.  Total: an absent element leaves the sequence unchanged (operators that
+\* must model Python's ValueError test InSeq themselves); the specification must never make TLC fail on a log
+RemoveFirst(s, v) == IF InSeq(s, v) THEN RemoveAt(s, FirstIdx(s, v)) ELSE s
 FilterSeq(s, Test(_)) == SelectSeq(s, Test)
 CountSeq(s, Test(_)) == Len(SelectSeq(s, Test))
 Last(s) == s[Len(s)]
